@@ -12,11 +12,11 @@ def consts(events=(1,), nodes=1, filters=0, enq=3, disp=0, depth=5, ordered=Fals
 
 
 def world(name, obj=1, threading=0, key=0, arg=0, mode=0, map_=0, filt=0, order=0, callback=0, fill="0xA5", fraction=1.0,
-          compiler="g++", std="c++11", opt="-O1", only_tags=None, sanitize=True):
+          compiler="g++", std="c++11", opt="-O1", only_tags=None, sanitize=True, cancont=0):
     w = {"name": name, "source": "dq_interp.cpp",
          "defines": ["W_OBJ=%d" % obj, "W_THREADING=%d" % threading, "W_KEY=%d" % key, "W_ARG=%d" % arg, "W_MODE=%d" % mode, "W_MAP=%d" % map_,
-                     "W_FILTER=%d" % filt, "W_ORDER=%d" % order, "W_CALLBACK=%d" % callback, "W_FILL=%s" % fill],
-         "fraction": fraction, "compiler": compiler, "std": std, "opt": opt, "sanitize": sanitize, "trace_env": {"ORDER": str(order)}}
+                     "W_FILTER=%d" % filt, "W_ORDER=%d" % order, "W_CALLBACK=%d" % callback, "W_FILL=%s" % fill] + (["W_CANCONT=1"] if cancont else []),
+         "fraction": fraction, "compiler": compiler, "std": std, "opt": opt, "sanitize": sanitize, "trace_env": {"ORDER": str(order), "CANCONT": str(cancont)}}
     if only_tags:
         w["only_tags"] = only_tags
     return w
@@ -79,16 +79,25 @@ def c04(tier, seed):
 def c12(tier, seed):
     quick = tier == "quick"
     models = [{"module": "DQImpl", "tag": "filters", "invariants": INV,
-               "constants": consts(events=(1,), nodes=2, filters=2, enq=2 if quick else 3, disp=1 if quick else 2, depth=4,
+               "constants": consts(events=(1,), nodes=2 if not quick else 1, filters=2, enq=2 if quick else 3, disp=1 if quick else 2, depth=4,
                                    ops={"al", "rl", "af", "rf", "dp", "nq", "pa", "po", "pi"}, nest={"rf", "af", "rl"} if quick else {"rf", "af", "rl", "nq"})}]
-    worlds = [world("f_val", filt=1, arg=0),
-              world("f_cref_multi", filt=1, arg=1, threading=1, fraction=0.3, fill="0xFF"),
-              world("f_ref_incl_str", filt=1, arg=2, mode=1, key=1, fraction=0.3, fill="0x00")]
+    # canContinueInvoking policy, conditionalFunctor and argumentAdapter wrapped listeners, with and without filters rewriting the argument
+    models.append({"module": "DQImpl", "tag": "wrappers", "invariants": INV,
+                   "constants": consts(events=(1,), nodes=3, filters=1, enq=1, disp=2 if quick else 3, depth=3,
+                                       ops={"al", "aw", "aa", "rl", "af", "dp", "nq", "po"}, nest={"rl"} if quick else {"rl", "dp"})})
+    worlds = [world("f_val", filt=1, arg=0, only_tags=["filters"]),
+              world("f_cref_multi", filt=1, arg=1, threading=1, fraction=0.3, fill="0xFF", only_tags=["filters"]),
+              world("f_ref_incl_str", filt=1, arg=2, mode=1, key=1, fraction=0.3, fill="0x00", only_tags=["filters"]),
+              world("w_val_cancont", filt=1, arg=0, cancont=1, only_tags=["wrappers"]),
+              world("w_cref_incl_cancont", filt=1, arg=1, mode=1, key=2, cancont=1, threading=1, fraction=0.4, only_tags=["wrappers"]),
+              world("w_ref_nocancont", filt=1, arg=2, fraction=0.4, only_tags=["wrappers"], fill="0xFF")]
     return {"interp": "harness/dq_interp.cpp", "trace_module": "TraceDQ", "models": models, "worlds": worlds,
             "nontrivial_key": "nested",
             "rule": "every transition of the bounded DQImpl model with MixinFilter: filters added/removed (also from inside filters and listeners), scripted "
-                    "filter verdicts and argument rewrites, dispatch direct and through process/processOne/processIf; non-trivial = an operation ran inside "
-                    "a filter, listener or predicate",
+                    "filter verdicts and argument rewrites, dispatch direct and through process/processOne/processIf; plus listeners wrapped by "
+                    "conditionalFunctor (condition: argument value even) and argumentAdapter (argument converted to the listener's own type) in worlds "
+                    "whose Policies have canContinueInvoking (stop when the value is 2), argument values 0..2 rewritten by filters; non-trivial = an "
+                    "operation ran inside a filter, listener or predicate",
             "assumptions": ASSUME}
 
 
